@@ -390,12 +390,12 @@ sys.exit(0)
 '''
     chk.functions = ['Coordinates.equatorial2ecliptical', 'ecliptical2equatorial', 'equatorial2horizontal', 'horizontal2equatorial', 'equatorial2galactic',
                      'galactic2equatorial', 'angular_separation', 'relative_position_angle', 'circle_diameter', 'Angle.set/reduce_deg/to_positive/rad/__add__/__sub__']
-    jobs = [('rot', f) for f in SPECS] + [('gal', 'equatorial2galactic'), ('gal', 'galactic2equatorial'), ('mat', 0), ('sep', 0), ('circle', 0)]
+    jobs = [('rot', f) for f in SPECS] + [('mat', 0), ('sep', 0), ('circle', 0)]
     chk.run(dispatch, jobs, 'coordinate conversions as rotations (mode T)')
     chk.bounds = {'directions': 'all (cos of the latitude-like angle > 0: poles excluded)', 'obliquity / observer latitude': '[-90, 90] degrees',
                   'circle_diameter': 'three separations in (0, 10) degrees'}
     chk.stubs = ['circle_diameter: angular_separation replaced by three arbitrary positive reals obeying the triangle inequality']
-    chk.outside = ['the galactic pair as a rotation (only its output ranges are decided: the rotation obligations with three constant angles came back sat/unknown against my specification and were not triaged in time)',
+    chk.outside = ['the galactic pair (the rotation obligations with three constant angles came back sat/unknown against my specification and were not triaged in time; the exploration alone takes ~10 min, so not even its output ranges are claimed)',
                    'relative_position_angle (unknown after 60 s)', 'the poles (cos delta = 0)', 'IEEE rounding: real arithmetic; the 1e-9 degree of the statement is not addressed',
                    'antisymmetry of the position angle (not an identity of the tangent-plane formula)']
     chk.assumptions = ['mode T: sin/cos of symbolic angles are atoms with c^2 + s^2 = 1; inverse functions create atoms tied to their argument by polynomial equations; floats as reals']
